@@ -104,10 +104,15 @@ type simState struct {
 	// number of the previous directive there)
 	staleWid, stalePrec int
 	// wmode 1: Write accepts wafter more bytes and then fails; 2: it then
-	// reports short counts with a nil error as well
+	// reports short counts with a nil error as well; 3: it panics instead
+	// (package fmt recovers panics of a Formatter, so a failing sink may well
+	// panic and the process carries on)
 	wmode, wafter int
 	refused       bool
 }
+
+// peerPanic is what a simulated peer panics with.
+type peerPanic struct{}
 
 func (s *simState) Write(b []byte) (int, error) {
 	s.writes++
@@ -116,6 +121,9 @@ func (s *simState) Write(b []byte) (int, error) {
 			n := s.wafter
 			s.wafter = 0
 			s.refused = true
+			if s.wmode == 3 {
+				panic(peerPanic{})
+			}
 			s.out.Write(b[:n])
 			if s.wmode == 2 && s.writes%2 == 0 {
 				return n, nil
@@ -267,7 +275,18 @@ func init() {
 			st.wmode, st.wafter = int(op.int(2)), int(op.int(3))
 		}
 		x.call(r, func() {
-			a.Format(st, rune(verb))
+			func() {
+				// a panic raised by the peer itself passes through the library;
+				// it is not the library's panic
+				defer func() {
+					if p := recover(); p != nil {
+						if _, ok := p.(peerPanic); !ok {
+							panic(p)
+						}
+					}
+				}()
+				a.Format(st, rune(verb))
+			}()
 			r.str(st.out.String())
 			r.int(int64(st.writes))
 			if st.refused {
